@@ -78,6 +78,7 @@ func main() {
 	flag.Parse()
 	r := lib.Rand()
 	w := lib.NewWriter(header, 150)
+	defer w.Guard()
 	n := lib.Count(700, 12000)
 	g := &tlsgen.Gen{R: r}
 	hung := false
@@ -92,6 +93,9 @@ func main() {
 		t, tag := g.Type(1+r.Intn(4), true)
 		if i%3 == 0 {
 			t, tag = g.Struct(1+r.Intn(3)), ""
+		}
+		if i%7 == 3 {
+			t, tag = g.VariantVec(r.Intn(2)) // vectors of variant structs: repeated selectors in consecutive elements
 		}
 		if strings.Contains(t.Coq(), "size:0") {
 			wellformed = false
